@@ -613,6 +613,9 @@ struct CapSide {
     gr: Option<(u8, Vec<usize>)>,
     llgr: Option<Vec<(usize, u32)>>,
     unknown: bool,
+    /// order of the capabilities in the OPEN (RFC 5492: any order, repeats allowed):
+    /// 0 = MP first, 1 = reversed (ADD-PATH precedes the MP capabilities), 2 = MP capabilities repeated at the end
+    order: u8,
 }
 
 const CF: [Family; 2] = [Family::IPV4, Family::IPV6];
@@ -649,6 +652,14 @@ fn caps_of(s: &CapSide, asn: u32) -> Vec<packet::Capability> {
     if s.unknown {
         v.push(packet::Capability::Unknown { code: 200, bin: vec![1, 2, 3] });
     }
+    match s.order {
+        1 => v.reverse(),
+        2 => {
+            let mps: Vec<packet::Capability> = v.iter().filter(|c| matches!(c, packet::Capability::MultiProtocol(_))).cloned().collect();
+            v.extend(mps);
+        }
+        _ => {}
+    }
     v
 }
 
@@ -672,7 +683,11 @@ fn sides(thorough: bool) -> Vec<CapSide> {
                     for unknown in [false, true] {
                         // one GR capability rides along in the "unknown" variants to show it does not disturb the rest
                         let gr = if unknown { Some((0x4u8, vec![0usize])) } else { None };
-                        out.push(CapSide { fam: [f0.clone(), f1.clone()], dup, as4, extmsg, gr, llgr: None, unknown });
+                        // the order variants matter where a per-family capability (ADD-PATH) accompanies MP
+                        let orders: &[u8] = if matches!(f0, Some(Some(_))) || matches!(f1, Some(Some(_))) { &[0, 1, 2] } else { &[0] };
+                        for &order in orders {
+                            out.push(CapSide { fam: [f0.clone(), f1.clone()], dup, as4, extmsg, gr: gr.clone(), llgr: None, unknown, order });
+                        }
                     }
                 }
             }
@@ -687,7 +702,7 @@ fn gr_sides(thorough: bool) -> Vec<CapSide> {
     let mut out = Vec::new();
     for gr in &grs {
         for llgr in &llgrs {
-            out.push(CapSide { fam: [Some(None), Some(None)], dup: None, as4: true, extmsg: true, gr: gr.clone(), llgr: llgr.clone(), unknown: false });
+            out.push(CapSide { fam: [Some(None), Some(None)], dup: None, as4: true, extmsg: true, gr: gr.clone(), llgr: llgr.clone(), unknown: false, order: 0 });
         }
     }
     out
@@ -872,7 +887,7 @@ pub(crate) fn run(replay: Option<&str>) -> Report {
     }
     let thorough = rep.thorough();
     let depth = if thorough { 6 } else { 5 };
-    rep.rule = format!("(i) explicit-state BFS depth {depth} over connect(passive|active, static|in-dynamic-prefix|other address) / disconnect / enable / disable / delete against the real accept_connection + session tasks on loopback (4 configurations: static only with prefix limit; admin-down static + route-server dynamic group with GR and hold time; overlapping dynamic prefixes + RR client group + confederation; iBGP static neighbour + RR-client group inside a confederation whose member list names the local member AS); admission verdict, no bytes before refusal, role / hold time / local AS / capabilities / limits of the session as seen in its OPEN, Global.peers and connection slots after every step; (ii) all pairs of capability lists from a {} -element menu (per-family absent / MP / add-path modes incl. invalid 4, conflicting duplicate add-path entries, AS4, extended message, GR flag/family lists, LLGR lists, unknown capability) through encode->decode and PeerCodec::negotiate in both directions, PeerFsm effective send-max, PeerSession::negotiate_gr/llgr (codec/FSM lists and GR/LLGR lists as two independent complete products); non-trivial = distinct canonical state / distinct pair", sides(thorough).len() + gr_sides(thorough).len());
+    rep.rule = format!("(i) explicit-state BFS depth {depth} over connect(passive|active, static|in-dynamic-prefix|other address) / disconnect / enable / disable / delete against the real accept_connection + session tasks on loopback (4 configurations: static only with prefix limit; admin-down static + route-server dynamic group with GR and hold time; overlapping dynamic prefixes + RR client group + confederation; iBGP static neighbour + RR-client group inside a confederation whose member list names the local member AS); admission verdict, no bytes before refusal, role / hold time / local AS / capabilities / limits of the session as seen in its OPEN, Global.peers and connection slots after every step; (ii) all pairs of capability lists from a {} -element menu (per-family absent / MP / add-path modes incl. invalid 4, conflicting duplicate add-path entries, three capability orders incl. ADD-PATH before MP and repeated MP, AS4, extended message, GR flag/family lists, LLGR lists, unknown capability) through encode->decode and PeerCodec::negotiate in both directions, PeerFsm effective send-max, PeerSession::negotiate_gr/llgr (codec/FSM lists and GR/LLGR lists as two independent complete products); non-trivial = distinct canonical state / distinct pair", sides(thorough).len() + gr_sides(thorough).len());
     for m in &ms {
         let cfg = BfsCfg { max_depth: depth, max_secs: if thorough { 1200 } else { 20 }, ..Default::default() };
         bfs::bfs(m, &cfg, &mut rep);
